@@ -93,7 +93,7 @@ def _lean(ctx):
         try:
             if prop == "C14":
                 lean = vlib.lean_check(PKG, THEOREMS[prop], thorough=ctx.thorough, checker_modules=["Codec.Props"],
-                                       audit_file="AuditProps.lean", build_targets=["Codec.Props", "codecdriver"])
+                                       audit_file="AuditProps.lean", build_targets=["Codec.Props", "Codec.PropsRender", "codecdriver"])
                 return lean, vlib.lean_failures(prop, lean), generated, obligations
             text, err = _regenerate(ctx)
             generated.append({"file": "lean/codec/Codec/GenEndpoints.lean",
@@ -113,11 +113,11 @@ def _lean(ctx):
                 wrote = True
                 ctx.log("GenEndpoints.lean differs from the committed copy; rebuilding")
             lean = vlib.lean_check(PKG, THEOREMS[prop], thorough=ctx.thorough,
-                                   checker_modules=["Codec.Props", "Codec.PropsEndpoints"])
+                                   checker_modules=["Codec.Props", "Codec.PropsRender", "Codec.PropsEndpoints"])
             if not lean["built"] and text is not None:
                 # is it only the theorem over the regenerated table?
                 rest = vlib.lean_check(PKG, [t for t in THEOREMS[prop] if t != ENDPOINT_THEOREM], thorough=False,
-                                       audit_file="AuditProps.lean", build_targets=["Codec.Props", "codecdriver"])
+                                       audit_file="AuditProps.lean", build_targets=["Codec.Props", "Codec.PropsRender", "codecdriver"])
                 if rest["built"]:
                     log = lean["build_log_tail"]
                     rest["theorems"].append({"name": ENDPOINT_THEOREM, "axioms": None, "ok": False,
